@@ -925,10 +925,11 @@ sexp sexp_read_error (sexp ctx, const char *msg, sexp ir, sexp port) {
   sexp res;
   sexp_gc_var4(sym, name, str, irr);
   sexp_gc_preserve4(ctx, sym, name, str, irr);
+  irr = ir;
   name = (sexp_port_name(port) ? sexp_port_name(port) : SEXP_FALSE);
   name = sexp_cons(ctx, name, sexp_make_fixnum(sexp_port_line(port)));
   str = sexp_c_string(ctx, msg, -1);
-  irr = ((sexp_pairp(ir) || sexp_nullp(ir)) ? ir : sexp_list1(ctx, ir));
+  irr = ((sexp_pairp(irr) || sexp_nullp(irr)) ? irr : sexp_list1(ctx, irr));
   res = sexp_make_exception(ctx, sym = sexp_intern(ctx, "read", -1),
                             str, irr, SEXP_FALSE, name);
   sexp_gc_release4(ctx);
